@@ -606,6 +606,20 @@ func c06Stream(o *Out, rng *rand.Rand, n int) {
 		}
 		c06Scrape(o, "many-unrelated-scrape", uri+"info_hash=aaaaaaaaaaaaaaaaaaaa&info_hash=bbbbbbbbbbbbbbbbbbbb", 50)
 	}
+	// LONG request strings: one unrelated value of 4 KiB .. 60 KiB before / after the tracker's own parameters, a long path
+	for _, l := range []int{4096, 8191, 16384, 60000} {
+		for pos := 0; pos < 2; pos++ {
+			g := c06Valid(rng)
+			junk := c06KV{"pad", strings.Repeat("x", l)}
+			if pos == 0 {
+				g.kvs = append([]c06KV{junk}, g.kvs...)
+			} else {
+				g.kvs = append(g.kvs, junk)
+			}
+			c06Announce(o, "long-uri", c06Render(rng, "/announce", g.kvs), g.opt, g.hdrs, g.remote)
+		}
+		c06Scrape(o, "long-uri-scrape", "/scrape/"+strings.Repeat("p", l)+"?info_hash=aaaaaaaaaaaaaaaaaaaa", 50)
+	}
 	// fixed corner URIs
 	for _, u := range []string{"", "?", "/announce", "/announce?", "/announce??", "/announce?&&;;", "/announce?=", "/announce?=&=", "/announce?%", "/announce?a=%",
 		"/announce?a=%4", "/announce?a=%4g", "/announce?%zz=1", "/announce?a=%%41", "/announce?info_hash", "/announce?info_hash=", "/announce?info_hash=%41",
